@@ -30,6 +30,13 @@ class Fault(Exception):
     pass
 
 
+class Interrupt(BaseException):
+    """A fault that is not an Exception (KeyboardInterrupt / SystemExit raised by the target)."""
+
+
+FAULTS = (Fault, Interrupt)
+
+
 @st.composite
 def s_thread(draw, tid):
     ops = []
@@ -43,7 +50,7 @@ def s_thread(draw, tid):
         t0 = draw(st.sampled_from([10 * k, 10 * k, 10 * k + 5, 100 * tid + 10 * k]))     # collisions across tests and threads
         ops.append({"op": "time", "t": t0})
         ops.append({"op": "startTest", "k": k})
-        if draw(st.integers(0, 1)) == 0:
+        for _ in range(draw(st.sampled_from([0, 1, 1, 2, 3]))):
             new = draw(H.TAGSET)
             ops.append({"op": "tags", "new": sorted(new), "gone": sorted(draw(H.TAGSET) - new)})
         ops.append({"op": "time", "t": draw(st.sampled_from([10 * k + 10, 10 * k + 5, t0, 100 * tid + 10 * k + 5]))})
@@ -65,7 +72,8 @@ def s_case(draw):
     threads = [draw(s_thread(i)) for i in range(n)]
     fault = draw(st.one_of(st.none(), st.none(), st.integers(0, 25)))
     schedule = draw(st.lists(st.integers(0, 3), max_size=40))
-    return {"threads": threads, "fault": fault, "schedule": schedule}
+    return {"threads": threads, "fault": fault, "schedule": schedule, "fault_base": draw(st.booleans()),
+            "scratch_tags": draw(st.booleans())}
 
 
 def execute(spec, schedule=None):
@@ -102,7 +110,7 @@ def execute(spec, schedule=None):
                 holder = sem.holder
                 log.append((t.tid if t else None, name, a, n, sem.count, holder.tid if holder else None))
                 if spec["fault"] is not None and n == spec["fault"]:
-                    raise Fault("injected at call %d (%s)" % (n, name))
+                    raise (Interrupt if spec.get("fault_base") else Fault)("injected at call %d (%s)" % (n, name))
                 return attr(*a, **kw)
             return call
     target = Target()
@@ -114,6 +122,8 @@ def execute(spec, schedule=None):
         tagm = H.TagModel()
         rep = []
         reports.append(rep)
+
+        scratch_new, scratch_gone = set(), set()
 
         def body():
             cur = None
@@ -127,7 +137,13 @@ def execute(spec, schedule=None):
                     elif k == "stopTestRun":
                         fwd.stopTestRun()
                     elif k == "tags":
-                        fwd.tags(set(op["new"]), set(op["gone"]))
+                        if spec.get("scratch_tags"):
+                            # a reporter that refills two scratch sets for every tags() call
+                            scratch_new.clear(); scratch_new.update(op["new"])
+                            scratch_gone.clear(); scratch_gone.update(op["gone"])
+                            fwd.tags(scratch_new, scratch_gone)
+                        else:
+                            fwd.tags(set(op["new"]), set(op["gone"]))
                         tagm.change(op["new"], op["gone"])
                     elif k == "time":
                         now = H.ts(op["t"])
@@ -161,7 +177,7 @@ def execute(spec, schedule=None):
                         fwd.done()
                     elif k == "shouldStop":
                         fwd.shouldStop
-                except Fault as f:
+                except FAULTS as f:
                     faults_seen.append((tid, k))
                     if k == "outcome":
                         rep[-1]["faulted"] = True
